@@ -290,6 +290,9 @@ class Ctx:
     # -- proof step
     def prove(self, extra_targets=(), timeout=1500):
         pid = self.pid
+        import gen_all
+        for g, err in gen_all.regen_all().items():
+            self.oblige("gen:" + g, err is None, err or "")
         bad = forbidden_scan()
         self.oblige("no_axioms_no_admits_scan", not bad, "; ".join(bad[:5]))
         models = [f[:-2] + ".vo" for f in _vfiles() if f.startswith("Model/") or f.startswith("Lib/")]
